@@ -585,8 +585,10 @@ class PipelineAnalysis:
             new_io = set(A.ALL) - wl.write_from
             if new_w == stable_w and new_io == stable_io:
                 break
-            stable_w, stable_io = stable_w & new_w, stable_io & new_io
-            if rounds > 6:
+            # any fixpoint is a consistent rely/guarantee pair (circular reasoning is sound for safety, by induction on time);
+            # the optimistic start is only a seed, so iterate the map itself rather than intersecting
+            stable_w, stable_io = new_w, new_io
+            if rounds > 8:
                 raise AnalysisBroken('rely/guarantee iteration does not converge')
         own_w = frozenset(stable_w)
         own_io = frozenset(stable_io - {E['INV']})
